@@ -263,7 +263,7 @@ func doForMapPerKey(valueThatShouldBeMap any, doFunc func(keyAsString string, ke
 		for _, e := range v.MapKeys() {
 			mks, ok := e.Interface().(string)
 			if !ok {
-				if reflect.TypeOf(e.Interface()).ConvertibleTo(reflect.TypeOf("")) {
+				if kt := reflect.TypeOf(e.Interface()); kt != nil && kt.ConvertibleTo(reflect.TypeOf("")) {
 					mksTemp := reflect.ValueOf(e.Interface()).Convert(reflect.TypeOf("")).Interface()
 					mks, ok = mksTemp.(string)
 					if !ok || mks == "" {
@@ -376,7 +376,7 @@ func findMapKey(m reflect.Value, identName string) (key reflect.Value, found boo
 	for _, e := range m.MapKeys() {
 		mks, ok := e.Interface().(string)
 		if !ok {
-			if reflect.TypeOf(e.Interface()).ConvertibleTo(reflect.TypeOf("")) {
+			if kt := reflect.TypeOf(e.Interface()); kt != nil && kt.ConvertibleTo(reflect.TypeOf("")) {
 				mksTemp := reflect.ValueOf(e.Interface()).Convert(reflect.TypeOf("")).Interface()
 				mks, ok = mksTemp.(string)
 				if !ok || mks == "" {
